@@ -151,6 +151,118 @@ fn honest_vec_call(rng: &mut Rng, height: u32, n_friendly: u64, queries: &[u64])
     }
 }
 
+/// Honest call on a tall sparse tree (heights 20..=63): queried leaves and a few others are
+/// distinct random values, the rest hold one default value.
+fn tall_vec_call(rng: &mut Rng, height: u32, n_friendly: u64, queries: &[u64]) -> VecCall {
+    let n = 1u64 << height;
+    let mut set: Vec<(u64, Felt)> = queries.iter().map(|q| (*q, rng.felt())).collect();
+    for _ in 0..rng.range(0, 4) {
+        let i = rng.below(n);
+        if !set.iter().any(|(q, _)| *q == i) {
+            set.push((i, rng.felt()));
+        }
+    }
+    let tree = models::SparseTree::build(height, n_friendly, rng.felt(), &set);
+    VecCall {
+        height: height as u64,
+        n_friendly,
+        root: tree.root(),
+        queries: queries.iter().map(|q| (Felt::from(*q), set.iter().find(|(i, _)| i == q).unwrap().1)).collect(),
+        auth: tree.auth(queries),
+    }
+}
+
+fn draw_tall_queries(rng: &mut Rng, height: u32) -> Vec<u64> {
+    let n = 1u64 << height;
+    let mut v = Vec::new();
+    for _ in 0..rng.range(1, 10) {
+        let q = match rng.below(8) {
+            0 => 0,
+            1 => n - 1,
+            2 => ((1u64 << 32) - 1) % n,
+            3 => (1u64 << 32) % n,
+            4 => ((1u64 << 32) + rng.below(64)) % n,
+            5 => (n >> 1).wrapping_sub(rng.below(2)) % n,
+            _ => rng.below(n),
+        };
+        v.push(q);
+        if rng.chance(1, 3) {
+            v.push(q ^ 1);
+        }
+    }
+    v.sort();
+    v.dedup();
+    v
+}
+
+/// C04 on tall trees: completeness and single-fault binding with indices far above 2^32.
+pub fn c04_tall(ctx: &mut Ctx) {
+    let scenario = "core.c04.tall";
+    for p in ["tall.query-at-or-above-2^32", "tall.height-above-40", "tall.query-zero", "tall.query-last"] {
+        ctx.stats.declare_probe(p);
+    }
+    let n_inst: u64 = if ctx.is_quick() { 200 } else { 8_000 };
+    for k in 0..n_inst {
+        if !ctx.mine(k) {
+            continue;
+        }
+        ctx.begin_run(scenario, k);
+        let mut rng = Rng::derive(ctx.seed, scenario, k);
+        let height = rng.range(20, 63) as u32;
+        let n_friendly = match rng.below(4) {
+            0 => 0,
+            1 => 1000,
+            _ => rng.range(0, height as u64 + 2),
+        };
+        let queries = draw_tall_queries(&mut rng, height);
+        if queries.iter().any(|q| *q >= 1 << 32) {
+            ctx.stats.probe("tall.query-at-or-above-2^32");
+        }
+        if height > 40 {
+            ctx.stats.probe("tall.height-above-40");
+        }
+        if queries[0] == 0 {
+            ctx.stats.probe("tall.query-zero");
+        }
+        if *queries.last().unwrap() == (1u64 << height) - 1 {
+            ctx.stats.probe("tall.query-last");
+        }
+        let call = tall_vec_call(&mut rng, height, n_friendly, &queries);
+        ctx.stats.messages_delivered += (call.queries.len() * 2 + call.auth.len() + 1) as u64;
+        ctx.stats.evaluations += 1;
+        let o = call.run();
+        ctx.stats.state(format!("tall|h{}|q{}|none|{}", height / 8 * 8, queries.len().min(8), o.class()));
+        if !o.is_accept() {
+            let rep = replay_envelope("C04", "core.c04", &ctx.variant, json!({"call": "vector_decommit", "args": call.to_json(), "expect": "ok", "expected_outcome": o.describe(), "found_at": {"height": height, "n_friendly": n_friendly, "queries": queries}}));
+            ctx.violation(&format!("C04|honest-rejected|{}", o.class()), &format!("honest decommitment rejected: height {height}, friendly {n_friendly}, queries {queries:?}: {}", o.describe()), rep);
+            continue;
+        }
+        // a tall tree has hundreds of authentication nodes: a spread sample of the single faults
+        let mut faults = vec_faults(&call, &mut rng);
+        let cap = if ctx.is_quick() { 48 } else { 160 };
+        if faults.len() > cap {
+            let stride = faults.len() as f64 / cap as f64;
+            let keep: std::collections::BTreeSet<usize> = (0..cap).map(|i| (i as f64 * stride) as usize).collect();
+            let mut i = 0;
+            faults.retain(|_| {
+                i += 1;
+                keep.contains(&(i - 1))
+            });
+        }
+        for (name, faulted) in faults {
+            let o = faulted.run();
+            ctx.stats.evaluations += 1;
+            let kind = fault_kind(&name);
+            ctx.stats.fired(&kind);
+            ctx.stats.state(format!("tall|h{}|{kind}|{}", height / 8 * 8, o.class()));
+            if o.is_accept() {
+                let rep = replay_envelope("C04", "core.c04", &ctx.variant, json!({"call": "vector_decommit", "args": faulted.to_json(), "expect": "not_ok", "fault": name, "expected_outcome": o.describe(), "found_at": {"height": height, "n_friendly": n_friendly, "queries": queries, "fault": name}}));
+                ctx.violation(&format!("C04|fault-accepted|{kind}"), &format!("fault {name} accepted: height {height}, friendly {n_friendly}, queries {queries:?}"), rep);
+            }
+        }
+    }
+}
+
 fn vec_faults(call: &VecCall, rng: &mut Rng) -> Vec<(String, VecCall)> {
     let mut out = Vec::new();
     let n = 1u64 << call.height;
